@@ -45,6 +45,7 @@ enum Val
   V_VINT0,
   V_VINT3,
   V_VSTR,
+  V_VCSTR,  // vector<const char*>: each element goes through the const char* overload, i.e. is a string on the wire
   V_VVINT,
   V_BASE_OWNED,  // OwnedArray<int> written through a const AbstractArray<int>&
   V_OWNED,
@@ -56,10 +57,10 @@ enum Val
 };
 
 static const char *VNAME[NVAL] = {"int8", "int32", "double", "Pod{int,float,char}", "string\"\"", "string\"a\"", "string(40)", "const char*\"xyz\"", "vector<int>{}", "vector<int>{1,2,3}",
-    "vector<string>{\"\",\"xy\"}", "vector<vector<int>>{{},{1},{2,3}}", "(const AbstractArray<int>&)OwnedArray<int>{4}", "OwnedArray<int>{4}", "OwnedArray<int>{}", "FixedArray<uint8_t>{3}",
+    "vector<string>{\"\",\"xy\"}", "vector<const char*>{\"\",\"pq\"}", "vector<vector<int>>{{},{1},{2,3}}", "(const AbstractArray<int>&)OwnedArray<int>{4}", "OwnedArray<int>{4}", "OwnedArray<int>{}", "FixedArray<uint8_t>{3}",
     "ArrayView<double>{2}", "FixedArrayView<uint8_t>{2 of 3}"};
 // class of the value for signatures
-static const char *VCLS[NVAL] = {"POD", "POD", "POD", "POD", "std::string", "std::string", "std::string", "const char*", "std::vector", "std::vector", "std::vector<std::string>", "nested std::vector",
+static const char *VCLS[NVAL] = {"POD", "POD", "POD", "POD", "std::string", "std::string", "std::string", "const char*", "std::vector", "std::vector", "std::vector<std::string>", "std::vector<const char*>", "nested std::vector",
     "AbstractArray& (base reference)", "OwnedArray", "OwnedArray", "FixedArray", "ArrayView", "FixedArrayView"};
 
 // the values, built once
@@ -72,6 +73,7 @@ struct Values
   std::string s0, s1 = "a", s40 = LONG40;
   std::vector<int> vi0, vi3;
   std::vector<std::string> vs;
+  std::vector<const char *> vcs;
   std::vector<std::vector<int>> vvi;
   std::vector<int> owned_src;
   std::vector<uint8_t> fixed_src;
@@ -86,7 +88,7 @@ struct Values
   static std::vector<uint8_t> mk_fixed() { return std::vector<uint8_t>{0, 255, 7}; }
 
   Values()
-      : vi3{1, 2, 3}, vs{"", "xy"}, vvi{{}, {1}, {2, 3}}, owned_src(mk_owned()), fixed_src(mk_fixed()), view_src{1.5, -0.0}, owned(owned_src), fixed(fixed_src), view(view_src),
+      : vi3{1, 2, 3}, vs{"", "xy"}, vcs{"", "pq"}, vvi{{}, {1}, {2, 3}}, owned_src(mk_owned()), fixed_src(mk_fixed()), view_src{1.5, -0.0}, owned(owned_src), fixed(fixed_src), view(view_src),
         fixed_sp(std::make_shared<FixedArray<uint8_t>>(fixed_src)), fview(fixed_sp, 1, 2)
   {
     pod.a = -99;
@@ -116,6 +118,7 @@ static void write_value(WriteStream &w, int v)
   case V_VINT0: w << V.vi0; break;
   case V_VINT3: w << V.vi3; break;
   case V_VSTR: w << V.vs; break;
+  case V_VCSTR: w << V.vcs; break;
   case V_VVINT: w << V.vvi; break;
   case V_BASE_OWNED: w << static_cast<const AbstractArray<int> &>(V.owned); break;
   case V_OWNED: w << V.owned; break;
@@ -188,6 +191,11 @@ static std::string read_value(BufferReader &r, int v)
     std::vector<std::string> x;
     r >> x;
     return x == V.vs ? "" : "vector<string> differs (size " + std::to_string(x.size()) + ")";
+  }
+  case V_VCSTR: {
+    std::vector<std::string> x;
+    r >> x;
+    return x == std::vector<std::string>{"", "pq"} ? "" : "vector<const char*> read back as vector<string> differs (size " + std::to_string(x.size()) + ")";
   }
   case V_VVINT: {
     std::vector<std::vector<int>> x;
